@@ -63,7 +63,7 @@ theorem evalB_shift {σ τ : St R} (h : ShiftA A d σ τ) :
     ∀ (e : Expr), mentionsE A e = false → evalB x σ e = evalB x τ e
   | .litF .., _ => by simp [evalB]
   | .litI .., _ => by simp [evalB]
-  | .sym .., _ => by simp [evalB]
+  | .sym .., _ => by simp [evalB, h.sv]
   | .mi .., _ => by simp [evalB]
   | .neg _, _ => by simp [evalB]
   | .not a, hm => by simp [mentionsE] at hm; simp [evalB, evalB_shift h a hm]
@@ -303,7 +303,7 @@ theorem exec_shift : ∀ (s : Stmt) (σ τ : St R), onlyAccum A s = true → Shi
       · simp [RelRes]
   | .vdecl n dt v, σ, τ, hs, h => by
     simp [onlyAccum] at hs
-    simp only [exec, h.iv, h.ia, safeE_shift h v hs.2, eval_shift x h v hs.2]
+    simp only [exec, h.iv, h.ia, safeE_shift h v hs.2, eval_shift x h v hs.2, evalB_shift x h v hs.2]
     split
     · split
       · simp only [RelRes]; exact h.setIV n _
